@@ -136,6 +136,10 @@ def boundary_sources():
         out.append((f"gen/tyargs_{n}", f"fn f() {{\n    let v: Map<Key{a}, &(dyn SomeLongTraitNameNumberOne + SomeLongTraitNameNumberTwo + Send)> = make::<Key{a}, (u32, &(dyn Other + Sync))>(1, 2);\n}}\n"))
         out.append((f"gen/mlstrarg_{n}", f"fn f() {{\n    foo(\"line one\n    line two\", {a}, second_argument, |x| x + 1);\n}}\n"))
         out.append((f"gen/floatlit_{n}", f"fn f() {{\n    let v{a} = 4.00.sqrt() + 16.0_0.max(1.) + 2.0.min(3.);\n    let r = ((1.50)..(2.5), 1.0_.powi(2), 7.50.abs(), 1e3.abs(), 0x1F_u32, 0xAb, 1_000.5_f64, 2E-3);\n}}\n"))
+        out.append((f"gen/charlit_{n}", f"fn f(c: char, d: u8) -> bool {{\n    let q = {a} == '\"' || dddddddd == b'\"' || c == '\\'' || eeeeeeee;\n    return c == '\"' && {a};\n}}\n"))
+        out.append((f"gen/uselong_{n}", f"use crate::{{alpha::Thing, generated_{a}::protocol_buffers_v3::Message, zeta}};\nuse a::{{b::{{c, generated_{a}::deeper_module_name::Deep}}, d}};\n"))
+        out.append((f"gen/macdef_{n}", f"macro_rules! check_{a} {{\n    ($e:expr, $i:expr) => {{\n        /// Fails when resized or zipped.\n        if   $e != $i {{ panic!(\"size mismatch in zip: {{}}\", $e); }}\n    }};\n}}\n"))
+        out.append((f"gen/trychain_{n}", f"fn f() -> Result<u32, E> {{\n    let v = r#try!(context.{a}(argument_one)).config.test().method_two(argument_two);\n    let w = r#try!(r#try!(open({a}))).field_name.method_three(cccccccc, dddddddd);\n    Ok(v)\n}}\n"))
         out.append((f"gen/quals_{n}", f"pub(crate) const unsafe extern \"C\" fn {a}<'a, T>(x: &'a mut T) -> impl Iterator<Item = &'a T> + 'a {{}}\npub async unsafe fn g{a}(self: Pin<&mut Self>) {{}}\n"))
     return out
 
